@@ -657,7 +657,7 @@ def copy_id(ctx: Ctx) -> List[Ob]:
     return obs
 
 
-@rule("CLS-HARD", ["C07"], floor=3, section="3.5")
+@rule("CLS-HARD", ["C07", "C05"], floor=3, section="3.5")
 def cls_hard(ctx: Ctx) -> List[Ob]:
     """a copying method of a class that has in-package subclasses instantiates the receiver's class, not a hard-coded base class"""
     obs: List[Ob] = []
@@ -666,6 +666,9 @@ def cls_hard(ctx: Ctx) -> List[Ob]:
         f = m.func(q)
         ctors = [c for c in ctx.env.calls_in[f] if TREECLS in ctx.env.types(f, c.func) or (isinstance(c.func, ast.Name) and m.is_family(c.func.id, "Tree"))]
         if not ctors:
+            if any(isinstance(c.func, ast.Attribute) and c.func.attr == f.name and isinstance(c.func.value, ast.Call) and norm(c.func.value.func) == "super" for c in ctx.env.calls_in[f]):
+                obs.append(ctx.ob("CLS-HARD", ["C05"], f, f"{q} delegates to the base class (which constructs cls)", None, True, note=True))
+                continue
             raise AnalysisError(f"{q}: tree construction not found")
         for c in ctors:
             hard = isinstance(c.func, ast.Name) and c.func.id in m.classes
